@@ -5,7 +5,7 @@ import re
 
 PROP = "C18"
 FAMILY = "stats"
-PROPS = ["C18", "C01Ident"]      # C01Ident: what the identifier pass delivers of a method (annotations, modifiers, returns-null)
+PROPS = ["C18", "C01Ident", "C18Source"]      # C01Ident: what the identifier pass delivers of a method (annotations, modifiers, returns-null)
 GEN_GROUPS = ["Stats"]
 
 MODS = ["public", "private", "protected", "static", "final", "abstract", "synchronized"]
